@@ -572,9 +572,9 @@ def _literal_rows(e, consts):
         return None
     rows = []
     for r in e.elts:
-        if isinstance(r, ast.Constant):
+        if isinstance(r, (ast.Constant, ast.Name)):
             rows.append([r])
-        elif isinstance(r, (ast.Tuple, ast.List)) and r.elts and all(isinstance(c, ast.Constant) for c in r.elts):
+        elif isinstance(r, (ast.Tuple, ast.List)) and r.elts and all(isinstance(c, (ast.Constant, ast.Name)) for c in r.elts):
             rows.append(list(r.elts))
         else:
             return None
@@ -626,6 +626,10 @@ def _unroll_table_loops(tree):
         tnames = [t.id for t in tgs]
         assigned = _stored_names(st.body)
         if set(tnames) & assigned or set(tnames) & fn_locals_after:
+            return None
+        # rows may name variables (a table of (graph, flag) pairs): those must not be re-bound by the body, and not every cell may be a variable
+        row_names = {c.id for r in rows for c in r if isinstance(c, ast.Name)}
+        if row_names & assigned or all(isinstance(c, ast.Name) for r in rows for c in r) and len(rows[0]) == 1:
             return None
         out = []
         for k, row in enumerate(rows, 1):
